@@ -16,133 +16,11 @@ package raft
 
 import (
 	"fmt"
-	"math/rand"
 	"os"
 	"testing"
 
 	vw "github.com/westerndigitalcorporation/blb/pkg/verifwire"
 )
-
-// ---------------------------------------------------------------- cloning the whole simulation
-
-func vsCloneMembershipPtr(m *Membership) *Membership {
-	if m == nil {
-		return nil
-	}
-	c := vsCopyMembership(*m)
-	return &c
-}
-
-func vsCloneCore(c *core, st *Storage) *core {
-	d := *c
-	d.storage = st
-	d.msgs = nil
-	d.committedEnts = nil
-	d.latestConf = vsCloneMembershipPtr(c.latestConf)
-	d.rand = rand.New(rand.NewSource(1))
-	f := *c.follower.(*coreFollower)
-	f.c = &d
-	d.follower = &f
-	cd := *c.candidate.(*coreCandidate)
-	cd.c = &d
-	if cd.votes != nil {
-		cd.votes = map[string]bool{}
-		for k, v := range c.candidate.(*coreCandidate).votes {
-			cd.votes[k] = v
-		}
-	}
-	d.candidate = &cd
-	l := *c.leader.(*coreLeader)
-	l.c = &d
-	if l.peers != nil {
-		l.peers = map[string]*peer{}
-		for k, p := range c.leader.(*coreLeader).peers {
-			pc := *p
-			l.peers[k] = &pc
-		}
-	}
-	d.leader = &l
-	switch c.state {
-	case c.follower:
-		d.state = d.follower
-	case c.candidate:
-		d.state = d.candidate
-	case c.leader:
-		d.state = d.leader
-	}
-	return &d
-}
-
-func vsCloneNode(n *vsNode) *vsNode {
-	m := *n
-	m.ctl = &vsMutCtl{}
-	m.st = &memState{voteFor: n.st.voteFor, term: n.st.term, myGUID: n.st.myGUID, seenGUIDs: map[string]uint64{}}
-	for k, v := range n.st.seenGUIDs {
-		m.st.seenGUIDs[k] = v
-	}
-	m.wl = NewMemLog()
-	if es := n.logEntries(); len(es) > 0 {
-		m.wl.Append(es...)
-	}
-	m.sm = &memSnapshotMgr{snapData: append([]byte(nil), n.sm.snapData...), snapMeta: n.sm.snapMeta}
-	if n.sm.snapData == nil {
-		m.sm.snapData = nil
-	}
-	m.sm.snapMeta.Membership = vsCloneMembershipPtr(n.sm.snapMeta.Membership)
-	m.stor = &Storage{State: &vsState{m.st, m.ctl}, SnapshotManager: &vsSnapMgr{m.sm, m.ctl}, log: &vsLog{m.wl, m.ctl}}
-	m.core = vsCloneCore(n.core, m.stor)
-	if n.pendingSnap != nil {
-		ps := *n.pendingSnap
-		m.pendingSnap = &ps
-	}
-	return &m
-}
-
-func (s *vsSim) clone() *vsSim {
-	c := &vsSim{prop: s.prop, caseID: s.caseID, cfg: s.cfg, nextCmd: s.nextCmd, evno: s.evno, quiet: true, tr: nil,
-		leaders: map[uint64]int{}, votes: map[[2]uint64]string{}, committed: map[uint64]*vsCommitted{},
-		grants: map[[2]uint64]string{}, viol: map[string]bool{}}
-	for k, v := range s.leaders {
-		c.leaders[k] = v
-	}
-	for k, v := range s.votes {
-		c.votes[k] = v
-	}
-	for k, v := range s.committed {
-		c.committed[k] = v
-	}
-	for k, v := range s.grants {
-		c.grants[k] = v
-	}
-	for k, v := range s.viol {
-		c.viol[k] = v
-	}
-	c.nodes = make([]*vsNode, len(s.nodes))
-	for i := 1; i < len(s.nodes); i++ {
-		c.nodes[i] = vsCloneNode(s.nodes[i])
-	}
-	c.soup = make([]*vsSoupMsg, len(s.soup))
-	for i, sm := range s.soup {
-		x := *sm
-		c.soup[i] = &x
-	}
-	return c
-}
-
-func vsSameProj(a, b *vsNode) bool {
-	var x, y vw.L
-	a.proj(&x)
-	b.proj(&y)
-	if len(x) != len(y) {
-		return false
-	}
-	for i := range x {
-		if x[i] != y[i] {
-			return false
-		}
-	}
-	return true
-}
 
 // ---------------------------------------------------------------- checks on a crashed-and-restarted node
 
@@ -311,6 +189,15 @@ func c07CatchUp(cl *vsSim, x int) {
 	}
 	vsChildStat("catchup.judged", 1)
 	if n.core.committedIndex != l.core.committedIndex || n.stor.lastIndex() != l.stor.lastIndex() {
+		// a leader-side cause that has nothing to do with the crash: a late negative AppEntsResp whose hint is not beyond
+		// matchIndex set nextIndex <= matchIndex; from then on the leader only probes below matchIndex and throws every
+		// answer away as stale
+		if p := l.core.leader.(*coreLeader).peers[vsName(x)]; p != nil && p.nextIndex <= p.matchIndex {
+			cl.ctxSig = ""
+			cl.report("replication-wedged-by-stale-hint", "a delayed negative AppEntsResp moved the leader's nextIndex to or below matchIndex; the leader now probes below matchIndex forever and discards every answer as stale: the follower never catches up while this leader stays",
+				map[string]interface{}{"node": x, "leader": l.i, "nextIndex": p.nextIndex, "matchIndex": p.matchIndex, "state": cl.describe()})
+			return
+		}
 		cl.report("cannot-catch-up", "on a healthy schedule the restarted node does not reach the leader's commit point",
 			map[string]interface{}{"node": x, "state": cl.describe()})
 	}
@@ -417,7 +304,9 @@ func c07RunCase(ci int, r *vw.Rng, tr *vsTrace, resumeJ, resumeK int) {
 		tr.caseHdr(id)
 	}
 	var s *vsSim
-	if os.Getenv("VERIF_C07_WITNESS") != "" {
+	if os.Getenv("VERIF_C07_WITNESS") == "2" {
+		s = c07StaleHint(id, tr)
+	} else if os.Getenv("VERIF_C07_WITNESS") != "" {
 		s = c07Witness(id, tr)
 	} else if ci < len(c07Corpus) {
 		s = c07Corpus[ci](id, tr, ctl)
@@ -444,22 +333,11 @@ func c07RunCase(ci int, r *vw.Rng, tr *vsTrace, resumeJ, resumeK int) {
 			s.hook = ctl.hook
 			ctl.hookFrom = s.evno
 		}
-		lagger := 0
-		if snapHeavy && g.members >= 3 {
-			lagger = g.members
-			g.isolated[lagger] = true
+		if snapHeavy {
+			g.lagPhase()
 		}
 		nev := s.evno + r.Range(20, vw.Scale(40, 90))
-		mid := s.evno + (nev-s.evno)/2
 		for s.evno < nev {
-			if snapHeavy && s.evno >= mid && lagger != 0 {
-				// the leader (if any) snapshots what it applied and trims; the lagging follower is reconnected
-				if l := s.topLeader(); l != nil && s.snapBegin(l.i) {
-					s.snapDone(l.i)
-				}
-				g.isolated = map[int]bool{}
-				lagger = 0
-			}
 			g.stepRandom()
 		}
 	}
@@ -475,6 +353,55 @@ var c07Corpus = []func(id string, tr *vsTrace, ctl *c07Ctl) *vsSim{
 	func(id string, tr *vsTrace, ctl *c07Ctl) *vsSim { return c07Wrap(5, id, tr, ctl) },
 	func(id string, tr *vsTrace, ctl *c07Ctl) *vsSim { return c07Wrap(1, id, tr, ctl) },
 	func(id string, tr *vsTrace, ctl *c07Ctl) *vsSim { return c07Wrap(6, id, tr, ctl) },
+	// a restarted (empty) follower and a delayed negative AppEntsResp: the leader's nextIndex falls to matchIndex
+	func(id string, tr *vsTrace, ctl *c07Ctl) *vsSim {
+		s := c07StaleHint(id, tr)
+		cl := s.clone()
+		c07CatchUp(cl, 3)
+		return s
+	},
+}
+
+// c07StaleHint: n3 is empty while n1 leads; n1's first probe (prev=1) is answered "no, hint 1" twice; the first answer is
+// delayed; the second makes n1 probe at 0 and ship entry 1; then the delayed answer arrives: Index 1 is not below
+// matchIndex 1, so nextIndex := hint = 1 <= matchIndex.
+func c07StaleHint(id string, tr *vsTrace) *vsSim {
+	s := vsNewSim("C07", id, vsCorpusCfg(3, 1, 0), tr)
+	s.step(s.evBootstrap(1, vsAll(3), 5))
+	s.elect(1, 2) // n3 hears nothing
+	s.sync(1, 2)
+	s.heartbeat(1, 1, 2)
+	from13 := func(m *vsSoupMsg) bool { return m.from == 1 && m.to == 3 }
+	from31 := func(m *vsSoupMsg) bool { return m.from == 3 && m.to == 1 }
+	// two probes reach n3, two negative answers are in flight
+	s.step(s.evTick(1))
+	for _, sm := range s.pending(from13) {
+		s.step(s.evDeliver(sm))
+	}
+	s.step(s.evTick(1))
+	for _, sm := range s.pending(from13) {
+		s.step(s.evDeliver(sm))
+	}
+	neg := s.pending(from31)
+	if len(neg) < 2 {
+		return s
+	}
+	delayed := neg[0]
+	s.step(s.evDeliver(neg[1])) // nextIndex := 1, probe at 0
+	for i := 0; i < 8; i++ {
+		p := s.pending(func(m *vsSoupMsg) bool { return (from13(m) || from31(m)) && m != delayed })
+		if len(p) == 0 {
+			break
+		}
+		s.step(s.evDeliver(p[0]))
+		if pr := s.nodes[1].core.leader.(*coreLeader).peers["n3"]; pr != nil && pr.matchIndex >= 1 {
+			break
+		}
+	}
+	// the follow-up AppEnts that is in flight is lost; then the delayed answer arrives
+	s.dropPending(from13)
+	s.step(s.evDeliver(delayed))
+	return s
 }
 
 func c07Wrap(k int, id string, tr *vsTrace, ctl *c07Ctl) *vsSim {
